@@ -8,6 +8,7 @@ def check(rep):
     ER.rule_fresh_per_parse(ctx)
     ER.rule_no_shared_state(ctx)
     ER.rule_mutable_defaults(ctx)
+    ER.rule_no_process_globals(ctx)
     ER.rule_sly_runtime_instance_only(ctx)
     ER.rule_call_forwards(ctx, rid="C17.CALL-READS-ONE", publish=True, aspects=("result",))
     ER.rule_commit_order(ctx, rid="C17.PUBLISH-AFTER-BUILD")
